@@ -389,6 +389,36 @@ Theorem C08_fallback_by_version_and_type : forall d sort,
 Proof. exact fallback_table. Qed.
 Print Assumptions C08_fallback_by_version_and_type.
 
+(* ---- packing the sort key into one integer rank (round 9).  rank = (shank * stride + row) * w - col
+   orders exactly like (shank, row, descending col) — strictly and on ties — whenever every row is below
+   the stride and every column below the width w; a stable sort by that rank is then the sort of the
+   theorems above.  For the NP2 grids (rows 0..639, columns 0..1; NPultra columns 0..7) stride 640, w 8 work ---- *)
+Theorem C08_packed_key_order : forall stride w a b,
+  key_in_range stride w a -> key_in_range stride w b ->
+  (packed stride w a < packed stride w b <-> lt3P a b) /\
+  (packed stride w a = packed stride w b <-> a = b).
+Proof. exact packed_order. Qed.
+Print Assumptions C08_packed_key_order.
+
+Theorem C08_packed_key_stable_sort : forall stride w key i j,
+  key_in_range stride w (key i) -> key_in_range stride w (key j) ->
+  (before key i j <-> packed stride w (key i) < packed stride w (key j) \/
+                      (packed stride w (key i) = packed stride w (key j) /\ i < j)).
+Proof. exact packed_before. Qed.
+Print Assumptions C08_packed_key_stable_sort.
+
+(* ---- ... and the stride must exceed the largest row INDEX: with stride 639 (the largest row of the
+   640-row grids instead of their row count) the top row of one shank and row 0 of the next collide —
+   distinct keys, one before the other, same rank ---- *)
+Theorem C08_packed_key_stride_639_refuted :
+  exists a b : key3, key_in_range 640 8 a /\ key_in_range 640 8 b /\
+    lt3P a b /\ a <> b /\ packed 639 8 a = packed 639 8 b.
+Proof.
+  exists (0, 639, 0), (1, 0, 0).
+  split; [cbn; lia|]. split; [cbn; lia|]. split; [cbn; lia|]. split; [discriminate|reflexivity].
+Qed.
+Print Assumptions C08_packed_key_stride_639_refuted.
+
 (* ---- non-vacuity: concrete inputs meeting the hypotheses, with the model's values ---- *)
 Example C08_example_sorted_split :
   geometry NP24 ShankMap [(1, 0, 5, 1); (0, 1, 5, 1); (1, 1, 5, 0); (0, 0, 5, 1)] (Some 1) true
@@ -484,3 +514,12 @@ typeThis=imec
 snsApLfSy=384,0,1
 "%string) true = Geometry t inds /\ gsize t = NC).
 Proof. split; [vm_compute; reflexivity|]. eexists. eexists. vm_compute. split; reflexivity. Qed.
+
+(* the collision on a real table: rows 639 of shank 0 and 0 of shank 1, later shank first in the file *)
+Example C08_example_grid_extremes :
+  geometry NP24 ShankMap [(1, 0, 0, 1); (0, 0, 639, 1); (1, 1, 0, 1); (0, 1, 639, 1)] None true
+  = Some (mkgeom [0; 0; 1; 1] [1; 0; 1; 0] [639; 639; 0; 0] [1; 1; 1; 1] [59; 27; 59; 27] [9605; 9605; 20; 20]
+                 [1; 0; 1; 0] [1; 1; 0; 0] [3; 1; 2; 0], [3; 1; 2; 0]) /\
+  map (packed 639 8) [(1, 0, 0); (0, 639, 0); (1, 0, -1); (0, 639, -1)] = [5112; 5112; 5111; 5111] /\
+  map (packed 640 8) [(1, 0, 0); (0, 639, 0); (1, 0, -1); (0, 639, -1)] = [5120; 5112; 5119; 5111].
+Proof. vm_compute. repeat split. Qed.
